@@ -1,7 +1,7 @@
-(* C02 — write-through persistence: the byte image always reopens to the same state.  Statements are printed by Check below and compared with C02.expected.  PARTIAL: proved are the write-through of the FAT, of the directory (insert / remove / metadata updates / new directory sectors) and of the MiniFAT cells (every cached cell or entry equals its bytes on disk after every mutation), that the on-disk FAT and directory read back as open does return the cache (the directory followed by the blank slots of its last sector), the entry / header codec round trips in both modes, and that strict acceptance gives the same state as permissive.  The composition persist (open (image s) = s up to free-list order, for every reachable s) is NOT proved; it is checked at every operation boundary of generated histories: the implementation's bytes, taken without flush, are reopened in both modes by the crate and by the model and all dumps compared. *)
+(* C02 — write-through persistence: the byte image always reopens to the same state.  Statements are printed by Check below and compared with C02.expected.  PARTIAL: proved are the write-through of the FAT, of the directory (insert / remove / metadata updates / new directory sectors) and of the MiniFAT cells (every cached cell or entry equals its bytes on disk after every mutation), that the on-disk FAT and directory read back as open does return the cache (the directory followed by the blank slots of its last sector), the entry / header codec round trips in both modes, and that strict acceptance gives the same state as permissive.  Also proved (proofs/ReopenProofs.v): the REOPEN ROUND TRIP - for every state that is Coherent (header bytes = header computed from the cache, FAT / directory / MiniFAT cache = disk, tails FREE, tables valid; no DIFAT sectors, i.e. at most 109 FAT sectors) open in BOTH modes on the concatenated image succeeds and returns exactly the cached tables (directory followed by the blank slots of its last sector, free lists rebuilt in index order); Coherent holds for the fresh file of either version and, by a sound boolean checker, for reachable example states (storages, mini and regular streams, removals, second FAT sector, second directory sector, extended MiniFAT); the header field writes of allocation keep the header coherent.  NOT proved: that Coherent is preserved by every API operation (its layers are: FAT, directory, MiniFAT write-through above), and the DIFAT-sector regime; both are checked at every operation boundary of generated histories: the implementation's bytes, taken without flush, are reopened in both modes by the crate and by the model and all dumps compared. *)
 From Cfb.model Require Import Base Names DirEnt State Alloc Dir Mini Store Handle Open Cfb.
 From Cfb.gen Require Import Consts.
-From Cfb.proofs Require Import CoherenceProofs CodecProofs StrictProofs DirCoherence.
+From Cfb.proofs Require Import CoherenceProofs CodecProofs StrictProofs DirCoherence ReopenProofs.
 Set Printing Width 110.
 
 (* every FAT cell update is on disk when the call returns *)
@@ -81,3 +81,51 @@ Theorem C02_strict_and_permissive_agree : ltac:(let t := type of strict_implies_
 Proof. exact strict_implies_permissive. Qed.
 Check C02_strict_and_permissive_agree.
 Print Assumptions C02_strict_and_permissive_agree.
+
+(* for EVERY coherent state: open (either mode) of the bytes alone = the cached state (blank directory slots appended, free lists in index order) *)
+Theorem C02_reopen_round_trip : ltac:(let t := type of reopen_both_modes in exact t).
+Proof. exact reopen_both_modes. Qed.
+Check C02_reopen_round_trip.
+Print Assumptions C02_reopen_round_trip.
+
+(* the same, field by field *)
+Theorem C02_reopen_returns_the_cached_tables : ltac:(let t := type of reopen_same_tables in exact t).
+Proof. exact reopen_same_tables. Qed.
+Check C02_reopen_returns_the_cached_tables.
+Print Assumptions C02_reopen_returns_the_cached_tables.
+
+(* a boolean checker implies Coherent (used to establish it for concrete reachable states by evaluation) *)
+Theorem C02_coherence_is_decidable_soundly : ltac:(let t := type of coherent_b_sound in exact t).
+Proof. exact coherent_b_sound. Qed.
+Check C02_coherence_is_decidable_soundly.
+Print Assumptions C02_coherence_is_decidable_soundly.
+
+(* the file written by create, V3 and V4 *)
+Theorem C02_fresh_file_is_coherent : ltac:(let t := type of Examples.create_state_coherent in exact t).
+Proof. exact Examples.create_state_coherent. Qed.
+Check C02_fresh_file_is_coherent.
+Print Assumptions C02_fresh_file_is_coherent.
+
+(* non-vacuity: states after removals, with an extended MiniFAT, a second FAT sector, a second directory sector *)
+Theorem C02_reachable_states_are_coherent : ltac:(let t := type of Examples.more_coherent in exact t).
+Proof. exact Examples.more_coherent. Qed.
+Check C02_reachable_states_are_coherent.
+Print Assumptions C02_reachable_states_are_coherent.
+
+(* header bytes of a fresh file = header computed from the cache *)
+Theorem C02_fresh_header_is_coherent : ltac:(let t := type of create_state_header_coherent in exact t).
+Proof. exact create_state_header_coherent. Qed.
+Check C02_fresh_header_is_coherent.
+Print Assumptions C02_fresh_header_is_coherent.
+
+(* reuse and growth (with or without a new FAT sector listed in the header DIFAT) leave header bytes = header of the cache *)
+Theorem C02_allocation_keeps_the_header_coherent : ltac:(let t := type of allocate_sector_header in exact t).
+Proof. exact allocate_sector_header. Qed.
+Check C02_allocation_keeps_the_header_coherent.
+Print Assumptions C02_allocation_keeps_the_header_coherent.
+
+(* appending a FAT sector writes the DIFAT slot and the FAT-sector count through *)
+Theorem C02_new_fat_sector_updates_the_header : ltac:(let t := type of append_fat_sector_header in exact t).
+Proof. exact append_fat_sector_header. Qed.
+Check C02_new_fat_sector_updates_the_header.
+Print Assumptions C02_new_fat_sector_updates_the_header.
